@@ -895,6 +895,65 @@ def gen_regex_cases(chk, dist):
     return cases
 
 
+def impl_finditer_case(case):
+    from prompt_toolkit.document import Document
+    _, t, nd, ic = case
+    text, needle = unS(t), unS(nd)
+    starts = [m.start() for m in re.finditer(re.escape(needle), text, re.IGNORECASE if ic else 0)]
+    d = Document(text, len(text) // 2)
+    if d.find_all(needle, ignore_case=bool(ic)) != starts:
+        return ["find_all differs from re.finditer"]
+    f0 = d.find(needle, include_current_position=False, ignore_case=bool(ic), count=1)
+    f1 = d.find(needle, include_current_position=True, ignore_case=bool(ic), count=2)
+    fb = d.find_backwards(needle, ignore_case=bool(ic), count=1)
+    return [[starts]] + [[[] if x is None else [x]] for x in (f0, f1, fb)]
+
+
+def oracle_finditer(case, res):
+    """What the yielded starts must be, from naively enumerated occurrences: real
+    occurrences, increasing, and every occurrence is yielded or overlapped by an
+    earlier yielded one (leftmost, nothing skipped)."""
+    _, t, nd, ic = case
+    text, needle = unS(t), unS(nd)
+    if not (isinstance(res, list) and len(res) == 4):
+        return ("%r" % (res,), {"family": "finditer", "op": "re.finditer"})
+    ys = res[0][0]
+    O = occs(ic, needle, text)
+    L = max(1, len(needle))
+    if any(y not in O for y in ys):
+        return ("re.finditer(re.escape(%r), %r) yields %r: not all real occurrences" % (needle, text, ys), {"family": "real", "op": "re.finditer"})
+    if any(b < a + L for a, b in zip(ys, ys[1:])):
+        return ("re.finditer(re.escape(%r), %r) yields overlapping or unordered matches %r" % (needle, text, ys), {"family": "finditer", "op": "re.finditer"})
+    for o in O:
+        if o not in ys and not any(y < o < y + L for y in ys):
+            return ("re.finditer(re.escape(%r), %r) = %r skips the occurrence at %d" % (needle, text, ys, o), {"family": "skip-entry", "op": "re.finditer"})
+    return None
+
+
+def gen_finditer_cases(chk, dist):
+    rng = chk.rng
+    thorough = chk.tier == "thorough"
+    cases = []
+    nds = texts_upto(["a", "A", "b"], 2)
+    p = 1.0 if thorough else 0.25
+    for t in texts_upto(["a", "A", "b"], 4):
+        for nd in nds:
+            for ic in (0, 1):
+                if p >= 1.0 or rng.random() < p:
+                    cases.append([8, S(t), S(nd), ic])
+    for _ in range(6000 if thorough else 600):
+        al = rng.choice([["a", "b"], ["a", "A", "\n"], FOLD_ALPHA, ["a", ".", "*", "\\", "{", "[", "("]])
+        t = "".join(rng.choice(al) for _ in range(rng.randint(0, 12)))
+        if t and rng.random() < 0.6:
+            a = rng.randrange(len(t))
+            nd = t[a:a + rng.choice([1, 1, 2, 2, 3])]
+        else:
+            nd = "".join(rng.choice(al) for _ in range(rng.randint(0, 3)))
+        cases.append([8, S(t), S(nd), rng.randint(0, 1)])
+    dist["finditer_escaped_needle"] = len(cases)
+    return cases
+
+
 def case_variants(c):
     out = {c}
     for f in (str.lower, str.upper, str.title, str.casefold, str.swapcase):
@@ -1252,7 +1311,7 @@ def gen_session_cases(chk, dist):
 MALFORMED = [[], [1], [1, [], 0, 0, [], 0], [1, [[97]], 1, 0, [97], 0], [1, [[97]], 0, 2, [97], 0],
              [1, [[97]], 0, -1, [97], 0], [1, [[97]], 0, 0, [97], 2], [2, [97], 2, [97], 0, 1],
              [3, 0, [[97]], 0, 0, 0, [[99]]], [3, 2, [[97]], 0, 0, 0, []], [4], [1, [[[97]]], 0, 0, [97], 0],
-             [5], [5, 3], [5, [[97]]], [6, -1, 5], [6, 1], [6, 5, -2], [7, [[97]], 0, 5, 0, []], [7, [[97]], 0, 0, 2, []], [7]]
+             [5], [5, 3], [5, [[97]]], [6, -1, 5], [6, 1], [6, 5, -2], [7, [[97]], 0, 5, 0, []], [7, [[97]], 0, 0, 2, []], [7], [8], [8, [97], [97], 2], [8, 97, [97], 0]]
 
 
 # --------------------------------------------------------------------------
@@ -1295,6 +1354,8 @@ def describe(c, a, m):
             [("switch-focus" if k[0] == 21 else KEYNAMES[k[0]] + ("(%s)" % (chr(k[1]) if k[0] == 3 else k[1]) if len(k) > 1 else "")) for k in c[8]])
     if c and c[0] == 5 and len(c) == 2:
         return "pattern %r: re.escape / regex parser as literals: impl=%r model=%r" % (unS(c[1]), a, m)
+    if c and c[0] == 8 and len(c) == 4:
+        return "re.finditer(re.escape(%r), %r, ignore_case=%d) starts + find/find_backwards from the middle: impl=%r model=%r" % (unS(c[2]), unS(c[1]), c[3], a, m)
     if c and c[0] == 6 and len(c) == 3:
         return "IGNORECASE: pattern char U+%04X vs text char U+%04X (and swapped): impl=%r model=%r" % (c[1], c[2], a, m)
     if c and c[0] == 7 and len(c) == 6:
@@ -1332,6 +1393,8 @@ def tagger(c, a, m):
         return {"op": "re.escape"}
     if c[0] == 6:
         return {"op": "re.IGNORECASE"}
+    if c[0] == 8:
+        return {"op": "re.finditer"}
     if c[0] == 7:
         for j, (x, y) in enumerate(zip(a, m if isinstance(m, list) else [])):
             if x != y:
@@ -1404,6 +1467,7 @@ def main(tier):
     scases = gen_session_cases(chk, dist) + gen_ro_cases(chk, dist)
     rcases = gen_regex_cases(chk, dist)
     fcases = gen_fold_cases(chk, dist)
+    itcases = gen_finditer_cases(chk, dist)
     corpus = load_corpus(PROP)
     cases, impl_results = [], []
     oracle_bad = set()
@@ -1417,10 +1481,10 @@ def main(tier):
                               "_search/apply_search/get_search_position/document_for_search for every (direction, include_current_position, count); "
                               "kind 2 = Document.find/find_backwards; kind 3 = keys fed to the KeyProcessor of a real PromptSession "
                               "(kind 7: the same with a read-only default buffer, emacs mode); kind 5 = re.escape + the regex parser on a pattern; "
-                              "kind 6 = one pattern character against one text character under re.IGNORECASE"})
+                              "kind 6 = one pattern character against one text character under re.IGNORECASE; kind 8 = re.finditer(re.escape(needle), text, flags) starts"})
 
     tagged = [(c[0] if c and isinstance(c[0], int) else 0, c) for c in corpus]
-    tagged += [(1, c) for c in bcases] + [(2, c) for c in dcases] + [(5, c) for c in rcases] + [(6, c) for c in fcases]
+    tagged += [(1, c) for c in bcases] + [(2, c) for c in dcases] + [(5, c) for c in rcases] + [(6, c) for c in fcases] + [(8, c) for c in itcases]
     tagged += [(0, m) for m in MALFORMED]
     corpus_sessions = [c for k, c in tagged if k in (3, 7)]
     for kind, c in tagged:
@@ -1469,6 +1533,16 @@ def main(tier):
             if bad:
                 report(i, c, bad, out)
             chk.count_case(c, bool(out[0] != c[1]))
+        elif kind == 8 and len(c) == 4:
+            try:
+                out = with_watchdog(lambda: impl_finditer_case(c), 5)
+            except Exception as e:  # noqa
+                out = ["raise", type(e).__name__]
+            impl_results.append(out)
+            bad = oracle_finditer(c, out)
+            if bad:
+                report(i, c, bad, out)
+            chk.count_case(c, isinstance(out[0], list) and bool(out[0][0]))
         elif kind == 6 and len(c) == 3:
             try:
                 out = impl_fold_case(c)
@@ -1554,8 +1628,9 @@ def main(tier):
         "Document.find(count): the count-th occurrence counted with or without overlaps; preview = accept; typing / start / typing-only sessions move nothing); "
         "count=k all-or-nothing, counts below 1, get_search_position, non-overlapping counting in Document.find(count), abort after "
         "C-r/C-s and the state stored by */# are code semantics: proved about the model, reported through correspondence only",
-        "assumed about CPython's re: the search loop of re.finditer (leftmost, non-overlapping matches, an empty match at every position) and that the C matcher "
-        "runs a sequence of one-character ops left to right. Modelled and tied (Model/C16_Regex.v, tables Gen/C16_Sre.v regenerated from the running CPython): "
+        "assumed about CPython's re: that _sre executes the scan and the three one-character ops (LITERAL, LITERAL_UNI_IGNORE, IN_UNI_IGNORE) as Model/C16_ReFind.v and "
+        "Model/C16_Regex.v write them (the finditer loop itself - leftmost, non-overlapping, an empty match at every position - is a Gallina function since round 7, proved to yield "
+        "exactly the scan of real occurrences and tied by case kind 8). Modelled and tied (Model/C16_Regex.v, tables Gen/C16_Sre.v regenerated from the running CPython): "
         "re.escape, the sre parser on patterns made of plain characters and two-character escapes (proved: it reads re.escape(needle) back as the needle, for every needle), "
         "the IGNORECASE compilation of a literal and its one-character match (_sre.unicode_tolower / unicode_iscased / re._casefix._EXTRA_CASES; compared with re itself over "
         "all of Unicode: every cased pattern character in thorough, a sample in quick). The parser model answers None for constructs outside it "
@@ -1585,6 +1660,10 @@ def replay(data):
         out = impl_regex_case(case)
         print(describe(case, out, "-"))
         bad = oracle_regex(case, out)
+    elif case and case[0] == 8:
+        out = impl_finditer_case(case)
+        print(describe(case, out, "-"))
+        bad = oracle_finditer(case, out)
     elif case and case[0] == 6:
         out = impl_fold_case(case)
         print(describe(case, out, "-"))
